@@ -55,6 +55,10 @@ type Inliner struct {
 	// AugmentedBy records, for the namespace fix-up of the dump, which module
 	// introduced a node through augment: node name -> module name
 	AugmentedBy map[string]string
+	// InheritedWhens: the expressions of when statements that were written on a uses or an augment and
+	// copied onto the nodes it introduces.  Their context node is the parent of those nodes (RFC 6020
+	// 7.19.5), which YANG text cannot say for a when written on the node itself.
+	InheritedWhens map[string]bool
 	// Stats
 	NUses, NRefines, NUsesAugments, NAugments, NNested int
 	NCrossAugmentsKept                                 int
@@ -234,14 +238,14 @@ func (in *Inliner) expandKids(c *modCtx, parent *Stmt, scope []*Stmt, depth int)
 					continue
 				}
 				an = an.Clone()
-				inherit(a, an)
+				in.inherit(a, an)
 				t.Kids = append(t.Kids, an)
 			}
 			in.expandKids(c, t, scope, depth+1)
 		}
 		// when / if-feature / status of the uses apply to every node it introduces
 		for _, n := range nodes {
-			inherit(k, n)
+			in.inherit(k, n)
 		}
 		out = append(out, nodes...)
 	}
@@ -249,7 +253,13 @@ func (in *Inliner) expandKids(c *modCtx, parent *Stmt, scope []*Stmt, depth int)
 }
 
 // inherit copies if-feature, when and status of a uses/augment onto a node it introduces.
-func inherit(from, to *Stmt) {
+func (in *Inliner) inherit(from, to *Stmt) {
+	if in.InheritedWhens == nil {
+		in.InheritedWhens = map[string]bool{}
+	}
+	for _, w := range from.FindAll("when") {
+		in.InheritedWhens[w.Arg] = true
+	}
 	for _, f := range from.FindAll("if-feature") {
 		to.Kids = append(to.Kids, f.Clone())
 	}
@@ -325,7 +335,7 @@ func Inline(ms *ModSet) (*ModSet, *Inliner) {
 					continue
 				}
 				n := an.Clone()
-				inherit(a, n)
+				in.inherit(a, n)
 				in.requalify(n, c, tc)
 				t.Kids = append(t.Kids, n)
 				in.AugmentedBy[n.Arg] = m.Arg
